@@ -3,6 +3,7 @@
 -/
 import BumpverVerif.Driver.Common
 import BumpverVerif.Model.V2Patterns
+import BumpverVerif.Model.V2Version
 open Lean
 namespace BV.Drv
 
@@ -24,8 +25,93 @@ def hasCategory : Re → Bool
   | .grp _ r => hasCategory r
   | _ => false
 
+def v2OptNatJson : Option Nat → Json
+  | some n => Json.num n
+  | none => Json.null
+
+def vinfoJson (v : VInfo) : Json :=
+  Json.mkObj [("cal", Json.arr (v.cal.toList.map v2OptNatJson).toArray),
+    ("major", Json.num v.major), ("minor", Json.num v.minor), ("patch", Json.num v.patch),
+    ("bid", jstr v.bid), ("tag", jstr v.tag), ("pytag", jstr v.pytag),
+    ("num", Json.num v.num), ("inc0", Json.num v.inc0), ("inc1", Json.num v.inc1)]
+
+def perrJson : PErr → Json
+  | .pattern => errStr "PatternError"
+  | .typeError => errStr "TypeError"
+  | .valueError => errStr "ValueError"
+  | .overflow => errStr "OverflowError"
+  | .keyError => errStr "KeyError"
+  | .unsupported => unsupported
+
+def getOptNatAt (a : Array Json) (i : Nat) : Option Nat :=
+  match a[i]? with
+  | some (Json.num n) => some n.mantissa.toNat
+  | _ => none
+
+def getVinfo (j : Json) (k : String) : Except String VInfo := do
+  let o ← j.getObjVal? k
+  let cal ← match o.getObjVal? "cal" with
+    | .ok (Json.arr a) => pure a
+    | _ => .error "missing cal"
+  let c : CalOpt := {
+    yearY := getOptNatAt cal 0, yearG := getOptNatAt cal 1, quarter := getOptNatAt cal 2,
+    month := getOptNatAt cal 3, dom := getOptNatAt cal 4, doy := getOptNatAt cal 5,
+    weekW := getOptNatAt cal 6, weekU := getOptNatAt cal 7, weekV := getOptNatAt cal 8 }
+  let v : VInfo := {
+         cal := c, major := (← getNat o "major"), minor := (← getNat o "minor"),
+         patch := (← getNat o "patch"), bid := (← getStr o "bid"), tag := (← getStr o "tag"),
+         pytag := (← getStr o "pytag"), num := (← getNat o "num"), inc0 := (← getNat o "inc0"),
+         inc1 := (← getNat o "inc1") }
+  pure v
+
+def getDate (j : Json) (k : String) : Except String (Nat × Nat × Nat) :=
+  match j.getObjVal? k with
+  | .ok (Json.arr #[Json.num y, Json.num m, Json.num d]) => .ok (y.mantissa.toNat, m.mantissa.toNat, d.mantissa.toNat)
+  | _ => .error s!"missing date field {k}"
+
+def getOptStr (j : Json) (k : String) : Except String (Option Str) :=
+  match j.getObjVal? k with
+  | .ok (Json.str s) => .ok (some s.toList)
+  | .ok Json.null => .ok none
+  | _ => .error s!"missing optional string field {k}"
+
+def getFlags (j : Json) : Except String IncrFlags := do
+  let fl : IncrFlags := {
+         major := (← getBool j "major"), minor := (← getBool j "minor"),
+         patch := (← getBool j "patch"), tag := (← getOptStr j "tag"), tagNum := (← getBool j "tag_num"),
+         pinIncrements := (← getBool j "pin_increments"), pinDate := (← getBool j "pin_date") }
+  pure fl
+
 def handleV2 : Handler := fun op j =>
   match op with
+  | "parse" => some do
+    let v ← getStr j "version"
+    let p ← getStr j "pattern"
+    let today ← getDate j "today"
+    pure (match parseVersionInfo v p today with
+      | .ok vi => Json.mkObj [("ok", vinfoJson vi)]
+      | .error e => perrJson e)
+  | "format" => some do
+    let vi ← getVinfo j "vinfo"
+    let p ← getStr j "pattern"
+    pure (match formatVersion vi p with
+      | .ok s => okStr s
+      | .error e => perrJson e)
+  | "pattern_fields" => some do
+    let p ← getStr j "pattern"
+    pure (match parsePatternFields p with
+      | .ok l => okList l
+      | .error e => perrJson e)
+  | "incr" => some do
+    let v ← getStr j "version"
+    let p ← getStr j "pattern"
+    let fl ← getFlags j
+    let date ← getDate j "date"
+    let today ← getDate j "today"
+    pure (match incr v p fl date today with
+      | .ok (some s) => okStr s
+      | .ok none => Json.mkObj [("ok", Json.null)]
+      | .error e => perrJson e)
   | "compile_str" => some do
     let p ← getStr j "pattern"
     pure (if (compileRe p).isNone then unsupported else okStr (compileStr p))
